@@ -401,6 +401,11 @@ pub fn judge(sim: &Sim) -> Verdict {
             let c = &topo.nodes[m];
             let may_slave = c.class >= 128 && c.ports.iter().any(|p| !p.1);
             if !may_slave {
+                // an instance of clockClass 1..127, or with master-only ports only, is never anybody's slave
+                let slaves = sim.view[m].states.iter().filter(|s| *s == "Slave").count();
+                if slaves > 0 {
+                    v.findings.push(("never-slave-instance-has-a-slave-port".to_string(), format!("N{m} (clockClass {}, master-only ports {:?}) has {slaves} slave port(s): {}", c.class, c.ports.iter().map(|p| p.1).collect::<Vec<_>>(), desc())));
+                }
                 continue;
             }
             let slaves = sim.view[m].states.iter().filter(|s| *s == "Slave").count();
@@ -529,7 +534,7 @@ fn random_topo(rng: &Prng, max_nodes: usize, special: bool) -> Topo {
                 id: [0x00, 0x1b, 0x19, 0xff, 0xfe, 0x00, 0x00, ids[i]],
                 p1: *rng.pick(&[128u8, 128, 128, 127, 129]),
                 p2: *rng.pick(&[128u8, 128, 127]),
-                class: *rng.pick(&[248u8, 248, 187, 135, 255]),
+                class: *rng.pick(&[248u8, 248, 187, 135, 255, 128]),
                 acc: *rng.pick(&[0xfeu8, 0x21, 0x31]),
                 var: *rng.pick(&[0xffffu16, 0x4e5d]),
                 slave_only: false,
@@ -537,7 +542,7 @@ fn random_topo(rng: &Prng, max_nodes: usize, special: bool) -> Topo {
             };
             if special {
                 match rng.below(8) {
-                    0 => c.class = *rng.pick(&[6u8, 7, 13, 52]),
+                    0 => c.class = *rng.pick(&[6u8, 7, 13, 52, 127, 127, 1]),
                     1 => {
                         c.slave_only = true;
                         c.class = 255;
